@@ -96,11 +96,22 @@ class San:
 
     def const(self, e, want):
         """a cell constant of kind want in {'int', 'float'} as a Coq Z"""
-        if isinstance(e, ast.Attribute) and src(e.value) == "constants" and e.attr in self.consts:
+        if want != "str" and isinstance(e, ast.Attribute) and src(e.value) == "constants" and e.attr in self.consts:
             k, v = self.consts[e.attr]
             if (want, k) in (("int", "int"), ("float", "float")):
                 return zc(v)
             raise Unsupported(f"constant {e.attr} of kind {k} used as {want}")
+        if want == "str":
+            v = None
+            if isinstance(e, ast.Constant) and isinstance(e.value, str):
+                v = e.value
+            elif isinstance(e, ast.Attribute) and src(e.value) == "constants" and self.consts.get(e.attr, ("", None))[0] == "str":
+                v = self.consts[e.attr][1]
+            if v == ".":
+                return "str_missing"
+            if v == "":
+                return "str_fill"
+            raise Unsupported("string constant: " + src(e))
         if want == "int":
             if isinstance(e, ast.Constant) and isinstance(e.value, int) and not isinstance(e.value, bool):
                 return zc(e.value)
@@ -158,6 +169,13 @@ class San:
         lines = []
         for st in strip(body[0].orelse):
             t = src(st)
+            if kind == "str" and rank == 2 and isinstance(st, ast.If) and src(st.test) == "value.ndim == 2":
+                a, b = [src(x) for x in strip(st.body)], [src(x) for x in strip(st.orelse)]
+                if a == ["buff[j, :, :value.shape[1]] = value"] and b == ["for k, val in enumerate(value):\n    buff[j, k, :len(val)] = val"]:
+                    # rectangular or ragged: every sample's row gets its own values as a prefix
+                    lines.append(f"let row := bind row (fun r => {setp} r v) in")
+                    continue
+                raise Unsupported(name + ": ndim branches: " + " | ".join(a + b)[:120])
             if not isinstance(st, ast.Assign) or len(st.targets) != 1:
                 raise Unsupported(name + ": " + t[:80])
             tg, v = st.targets[0], st.value
@@ -178,6 +196,8 @@ class San:
             if src(tg) == "buff[j]":
                 lines.append(f"let row := Ok ({full} {self.const(v, kind)}) in")
                 continue
+            if kind == "str" and rank == 2 and False:
+                pass
             if (rank == 1 and src(tg) == "buff[j, :value.shape[0]]" or rank == 2 and src(tg) == "buff[j, :, :value.shape[1]]") and src(v) == "value":
                 lines.append(f"let row := bind row (fun r => {setp} r v) in")
                 continue
@@ -204,6 +224,18 @@ class San:
             raise Unsupported(name + ": " + " | ".join(b)[:120])
         c = self.const(ast.parse("constants.INT_MISSING").body[0].value, "int")
         return f"Definition gen_int_scalar (value : option (list Z)) : res Z :=\n  let x := match value with None => [{c}] | Some v => map gen_int_conv v end in\n  py_index0 x.\n"
+
+    def string_scalar(self):
+        fn = self.fns.get("sanitise_value_string_scalar")
+        b = [src(x) for x in strip(fn.body)] if fn else []
+        if len(b) != 1 or not isinstance(strip(fn.body)[0], ast.If) or src(strip(fn.body)[0].test) != "value is None":
+            raise Unsupported("sanitise_value_string_scalar shape")
+        st = strip(fn.body)[0]
+        nb, eb = strip(st.body), strip(st.orelse)
+        if len(nb) != 1 or src(nb[0].targets[0]) != "buff[j]" or [src(x) for x in eb] != ["buff[j] = value[0]"]:
+            raise Unsupported("sanitise_value_string_scalar: " + " | ".join(b)[:120])
+        c = self.const(nb[0].value, "str")
+        return f"Definition gen_string_scalar (value : option (list Z)) : res Z :=\n  match value with None => Ok {c} | Some v => py_index0 v end.\n"
 
     def flag(self):
         fn = self.fns.get("sanitise_value_bool")
@@ -293,6 +325,7 @@ def translate():
              s.int_conv(),
              s.vector("sanitise_value_int_1d", "int", 1), s.vector("sanitise_value_int_2d", "int", 2),
              s.vector("sanitise_value_float_1d", "float", 1), s.vector("sanitise_value_float_2d", "float", 2),
+             s.vector("sanitise_value_string_1d", "str", 1), s.vector("sanitise_value_string_2d", "str", 2), s.string_scalar(),
              s.scalar("sanitise_value_int_scalar", "int"), s.scalar("sanitise_value_float_scalar", "float"), s.flag(), s.dispatch()]
     return (f"(* GENERATED by translator/san2coq.py from {REPO}/bio2zarr/vcf2zarr/icf.py + constants.py: the value sanitisers *)\n"
             "From Coq Require Import ZArith List Bool.\nFrom B2Z Require Import Base.Prims Base.SanPrims.\nImport ListNotations.\nOpen Scope Z_scope.\n\n"
